@@ -290,6 +290,15 @@ func (env *SpecEnv) pureLoad(p Val, t types.Type) Val {
 			v.F = cellComp(t.Underlying().(*types.Pointer).Elem())
 			e.regCell(t.Underlying().(*types.Pointer).Elem())
 		}
+		if len(env.bound) == 0 && env.in != nil {
+			// heap well-formedness: every reference stored in the heap is allocated
+			switch v.K {
+			case KRef, KPtrField:
+				e.assume(st.reach, sApp("<", v.T, st.get("alloc")))
+			case KSlc:
+				e.assume(st.reach, sApp("<", slcArr(v.T), st.get("alloc")))
+			}
+		}
 		return v
 	case KPtrElem:
 		return env.pureElem(p.T, p.I, t)
